@@ -220,10 +220,39 @@ def run(pid, tier, seed):
             for w in range(n):
                 jobs.append((si, "colour", {"_colour": True, "S4_VERIF_HOLD": "w%d:WStart:0:90" % w}, None))
 
+        # a source with nothing to print (all of it lies before the window) beside sources that do print, in every position:
+        # it reports in, sums up and is gone -- possibly before another source has reported in at all (each of the others
+        # held back at its start, and at the sending of its first datum, in turn)
+        for ni in range(3 if tier == "quick" else 9):
+            n = 2 + ni % 2
+            quiet = ni % n
+            files, argv, sources, meta = {}, [], [], []
+            for w in range(n):
+                letter = "QRS"[w]
+                t0_ = gen.BASE - 400 * 86400 if w == quiet else gen.BASE
+                blob, msgs = gen.text_source(letter, [(t0_ + 2 * i + w, 0) for i in range(rng.choice([4, 9, 14]))], offset_min=0, frac=0, pad=rng.choice([0, 60]))
+                files["n%d_%s.log" % (w, letter)] = blob
+                argv.append("n%d_%s.log" % (w, letter))
+                sources.append([] if w == quiet else msgs)
+                meta.append({"name": argv[-1], "kind": "log", "msgs": len(msgs), "in_window": w != quiet})
+            expected = b"".join(m.data for m in gen.expected_merge(sources))
+            ranks = runmodel.rank_table([m.key for s_ in sources for m in s_])
+            dts = [[ranks[m.key] for m in s_] for s_ in sources]
+            sets.append((files, argv, sources, meta, expected, ranks, dts))
+            si = len(sets) - 1
+            pre = ["-a", gen.fmt_ts(gen.BASE - 86400, 0, 0, 0)]
+            jobs.append((si, "quiet-free", {"_pre": pre}, None))
+            for w in range(n):
+                if w != quiet:
+                    jobs.append((si, "quiet-hold-start", {"_pre": pre, "S4_VERIF_HOLD": "w%d:WStart:0:250" % w}, None))
+                    jobs.append((si, "quiet-hold-fileinfo", {"_pre": pre, "S4_VERIF_HOLD": "w%d:SendStart:0:250" % w}, None))
+            jobs.append((si, "quiet-hold-all-others", {"_pre": pre, "S4_VERIF_HOLD": ",".join("w%d:WStart:0:%d" % (w, 200 + 60 * w) for w in range(n) if w != quiet)}, None))
+
         def do(job):
             ji, (si, label, env, plan) = job
             files, argv, sources, meta, expected, ranks, dts = sets[si]
             env = dict(env)
+            pre = env.pop("_pre", [])
             colour = env.pop("_colour", False)
             perm = env.pop("_perm", None)
             if perm is not None:
@@ -233,7 +262,7 @@ def run(pid, tier, seed):
                 dts2 = [dts[i] for i in perm]
             else:
                 argv2, src2, exp2, dts2 = argv, sources, expected, dts
-            case = Case(files, ["--color", "always" if colour else "never"] + argv2, exp2, env=env, plan=plan,
+            case = Case(files, ["--color", "always" if colour else "never"] + pre + argv2, exp2, env=env, plan=plan,
                         note={"set": si, "schedule": label, "meta": meta, "perm": perm, "colour": colour}, timeout=30)
             r = case.run(os.path.join(sc, "run", "j%d" % ji), trace=True)
             return case, label, r, src2, dts2, ranks
@@ -474,6 +503,44 @@ def run(pid, tier, seed):
                     rep.violation("named-order:stdout", "%s %s: tied messages are not printed in the order the sources were named (differs at byte %d)"
                                   % (label, argv, first_diff(rr.out, want_m)), {"kind": "mixed-args", "argv": argv, "got": rr.out[:600].decode(errors="replace")})
 
+        # C01: the zone a timestamp without zone is READ in (--tz-offset) and the zone prepended datetimes are WRITTEN in
+        # (-u / -l / -z) are two things: a source without zone information merged with one that states its offset, the two
+        # options set apart, messages closer together than the zones are
+        zone_runs = 0
+        if pid == "C01":
+            dz = os.path.join(sc, "zones")
+            os.makedirs(dz)
+            zjobs = []
+            for zi, tmin in enumerate([0, 300, -480, 345] if tier == "quick" else [0, 60, 300, -480, 345, 825, -210]):
+                ia = [(gen.BASE + 40 * i, 0) for i in range(8)]
+                ib = [(gen.BASE + 40 * i + 13, 0) for i in range(8)]
+                blob_a, ma = gen.text_source("NAIVE", [(s_ + tmin * 60, n_) for s_, n_ in ia], frac=0, zone=False)
+                for m_, (s_, n_) in zip(ma, ia):
+                    m_.sec = s_
+                blob_b, mb = gen.text_source("ABS", ib, offset_min=0, frac=0)
+                gen.write(os.path.join(dz, "z%d" % zi, "naive.log"), blob_a)
+                gen.write(os.path.join(dz, "z%d" % zi, "abs.log"), blob_b)
+                merged = gen.expected_merge([ma, mb])
+                tz = "%s%02d:%02d" % ("+" if tmin >= 0 else "-", abs(tmin) // 60, abs(tmin) % 60)
+                for popt in ([], ["-u"], ["-l"], ["-z", "+03:00"], ["-z=-08:00"], ["-z=" + tz]):
+                    zjobs.append((zi, tz, popt, merged))
+
+            def zdo(job):
+                zi, tz, popt, merged = job
+                argv = ["--tz-offset=" + tz, "--color", "never"] + (popt + ["-d", "@@"] if popt else []) + ["naive.log", "abs.log"]
+                return common.run_s4(argv, cwd=os.path.join(dz, "z%d" % zi), tz_args=False, timeout=60)
+            with ThreadPoolExecutor(max_workers=8) as ex:
+                zres = list(ex.map(zdo, zjobs))
+            for (zi, tz, popt, merged), rr in zip(zjobs, zres):
+                zone_runs += 1
+                want_z = b"".join((b"@@:" if popt else b"") + m_.data for m_ in merged)
+                if rr.crashed or rr.timed_out:
+                    rep.violation("zones:crash", "--tz-offset=%s %s: rc=%s" % (tz, popt, rr.rc), {"kind": "zones", "tz": tz, "prepend": popt})
+                elif rr.out != want_z:
+                    rep.violation("zones:order", "--tz-offset=%s %s: a source without zone information and one with +00:00 are not merged by the "
+                                  "instants they denote (differs at byte %d)" % (tz, " ".join(popt), first_diff(rr.out, want_z)),
+                                  {"kind": "zones", "tz": tz, "prepend": popt, "got": rr.out[:500].decode(errors="replace")})
+
         # C06: "however slowly each file can be read": one source delivers nothing for seconds (a slow device, a huge
         # compressed member) at its FileInfo, at a message in the middle, at its summary, while the printing thread waits
         slow_runs = 0
@@ -533,7 +600,7 @@ def run(pid, tier, seed):
             "rule": "distinct = (ground-truth instants per source, schedule) pairs; non-trivial = >= 2 sources with at "
                     "least one equal instant inside or across sources",
             "samples": samples, "tlc_configs": details, "tlc_plans_followed": plan_followed, "tlc_plans_run": plan_total,
-            "source_sets": nsets, "closed_pipe_runs": epipe_runs, "mixed_kind_runs": mixed_runs, "wide_runs": wide_runs, "slow_source_runs": slow_runs, "directory_and_file_argument_runs": dir_runs, "exhaustive": False,
+            "source_sets": nsets, "closed_pipe_runs": epipe_runs, "mixed_kind_runs": mixed_runs, "wide_runs": wide_runs, "slow_source_runs": slow_runs, "directory_and_file_argument_runs": dir_runs, "read_zone_vs_written_zone_runs": zone_runs, "exhaustive": False,
             "checker_cmd": "tlc -config <generated MC cfg> S4Run.tla ; tlc -workers 1 -config <trace cfg> TraceS4Run.tla",
         }
         rep.assumptions = [
